@@ -51,37 +51,51 @@ theorem param_seen_partial (is : List Item) (hok : ∀ i ∈ is, i.ok = true) (h
 /-! ## restart / retry: the recorded string is re-parsed -/
 
 /-- **C11 (restart/retry re-use the parameters, full).** Re-parsing the recorded parameter string
-    (`strings.Join(DAG.Params, " ")`) gives the parameters of the run that is repeated. -/
+    (model.Params of DAG.Params) gives the parameters of the run that is repeated — for EVERY string. -/
 def roundtrip_full : Prop := ∀ p : Str, parse (recorded p) = parse p
 
-/-- F13: `"a b"` is recorded as `a b` and comes back as two parameters. -/
-theorem roundtrip_witness_F13 :
-    parse ['"', 'a', ' ', 'b', '"'] = [([], ['a', ' ', 'b'])] ∧
-    parse (recorded ['"', 'a', ' ', 'b', '"']) = [([], ['a']), ([], ['b'])] := by decide
+/-- still refuted, by an input outside the documented syntax only: the bare word `a=` (a name with nothing
+    after the '=') is the positional value `a=`; it is recorded as `a=""` and comes back as the named
+    parameter `a` with an empty value (the text `a=` of a real `a=""` is indistinguishable from it). -/
+theorem roundtrip_witness_bare_eq :
+    parse ['a', '='] = [([], ['a', '='])] ∧ parse (recorded ['a', '=']) = [(['a'], [])] := by decide
 
 theorem roundtrip_full_refuted : ¬ roundtrip_full := by
   intro h
-  have := h ['"', 'a', ' ', 'b', '"']
-  rw [roundtrip_witness_F13.1, roundtrip_witness_F13.2] at this
+  have := h ['a', '=']
+  rw [roundtrip_witness_bare_eq.1, roundtrip_witness_bare_eq.2] at this
   revert this; decide
 
-/-- **C11 (restart/retry, partial) — for ALL strings.** If every parsed parameter is `stable` (its value
-    is a non-empty word without white space or '"', not beginning with '`'; unnamed: no '=') the recorded
-    string re-parses to the same parameters. -/
-theorem roundtrip_partial (p : Str) (h : ∀ pr ∈ parse p, stable pr = true) : parse (recorded p) = parse p := by
-  unfold recorded dagParams
-  exact parse_join_stable (parse p) h
+/-- **C11 (restart/retry) — for EVERY list of parameters** (name, value) satisfying `roundOk` — name empty or
+    well-formed; a value recorded quoted (empty, or white space / '"' inside) does not end with a backslash and,
+    if unnamed, has no '=' before its first white space (F14b); a value recorded unquoted is one word — the
+    recorded string re-parses to exactly that list. -/
+theorem roundtrip_pairs (ps : List (Str × Str)) (h : ∀ pr ∈ ps, roundOk pr = true) :
+    parse (join (ps.map stringify)) = ps :=
+  parse_join_roundOk ps h
 
-/-- … in terms of the documented syntax: a retry/restart of a run started with `render is` sees the
-    intended parameters, provided they are safe and stable. -/
+/-- … for every parameter string whose parsed parameters satisfy `roundOk`. -/
+theorem roundtrip_partial (p : Str) (h : ∀ pr ∈ parse p, roundOk pr = true) : parse (recorded p) = parse p := by
+  unfold recorded dagParams
+  exact parse_join_roundOk (parse p) h
+
+/-- … in terms of the documented syntax: a retry/restart of a run started with `render is` sees exactly the
+    intended parameters — values with spaces, quotes, '=', empty values included. -/
 theorem retry_params_partial (is : List Item) (hok : ∀ i ∈ is, i.ok = true) (hsafe : ∀ i ∈ is, i.safe = true)
-    (hst : ∀ i ∈ is, stable i.intended = true) : parse (recorded (render is)) = intended is := by
+    (hst : ∀ i ∈ is, roundOk i.intended = true) : parse (recorded (render is)) = intended is := by
   have hp := parse_render is hok hsafe
   rw [roundtrip_partial _ (by
     rw [hp]; intro pr hpr
     simp only [intended, List.mem_map] at hpr
     obtain ⟨i, hi, rfl⟩ := hpr
     exact hst i hi), hp]
+
+/-- regression (F13, fixed by 0f8580b): `"a b"` is recorded as `"a b"` and comes back as ONE parameter;
+    an empty value and a value with a quote survive as well. -/
+theorem roundtrip_regression_F13 :
+    recorded ['"', 'a', ' ', 'b', '"'] = ['"', 'a', ' ', 'b', '"'] ∧
+    parse (recorded ['"', 'a', ' ', 'b', '"']) = [([], ['a', ' ', 'b'])] ∧
+    parse (recorded ['N', '=', '"', '"', ' ', '"', 'x', '\\', '"', 'y', '"']) = [(['N'], []), ([], ['x', '"', 'y'])] := by decide
 
 /-- the quotes the API client wraps around the parameter string are exactly the ones `start` removes;
     the string itself is unchanged when it holds no CR / LF. -/
@@ -166,7 +180,8 @@ def exItems : List Item :=
   [.bare ['x'], .quoted ['y', ' ', '"', 'z', '=', '1', '"'], .named ['K'] ['v', '=', 'w'], .namedQ ['K', '2'] ['a', '=', 'b', ' ', 'c']]
 example : (∀ i ∈ exItems, i.ok = true) ∧ (∀ i ∈ exItems, i.safe = true) := by decide
 example : parse (render exItems) = intended exItems := by decide
-example : stable ([], ['a']) = true ∧ stable (['K'], ['v', '=', 'w']) = true := by decide
+example : roundOk ([], ['a', ' ', '"']) = true ∧ roundOk (['K'], ['v', '=', 'w']) = true ∧ roundOk (['K'], []) = true := by decide
+example : ∀ i ∈ exItems, roundOk i.intended = true := by decide
 example : capture [' ', '\n', 'a', ' ', '=', 'b', '\t', '\n'] = ['a', ' ', '=', 'b'] := by decide
 
 end BdModel.P11
@@ -176,7 +191,9 @@ end BdModel.P11
 #print axioms BdModel.P11.param_exact_partial
 #print axioms BdModel.P11.param_seen_partial
 #print axioms BdModel.P11.roundtrip_full_refuted
+#print axioms BdModel.P11.roundtrip_pairs
 #print axioms BdModel.P11.roundtrip_partial
+#print axioms BdModel.P11.roundtrip_regression_F13
 #print axioms BdModel.P11.retry_params_partial
 #print axioms BdModel.P11.start_passes_params
 #print axioms BdModel.P11.start_cli_full_refuted
